@@ -75,9 +75,43 @@ def tree_hash(repo=None, extra=()):
     except OSError:
         raise AnalysisBroken(f'scanner binary {SCANNER} missing: run ./tools/build.sh (MANIFEST.setup_cmd)')
     h.update(' '.join(flags(repo)).replace(repo, '<repo>').encode())
+    h.update(open(os.path.abspath(__file__), 'rb').read())
     for e in extra:
         h.update(str(e).encode())
     return h.hexdigest()[:24]
+
+
+def probe_source(repo=None):
+    """A generated unit that includes every public header and explicitly instantiates the templates the
+    library itself does not (set algebra on both carriers, util::view<K> for every interface class K,
+    the Sequence implementations), so that their bodies can be analysed too.  Generated from the current
+    tree on every scan; lives in a scratch directory only."""
+    repo = repo or REPO
+    inc = os.path.join(repo, 'include', 'ipr')
+    try:
+        cats = open(os.path.join(inc, 'node-category'), encoding='utf-8', errors='replace').read()
+        iface = open(os.path.join(inc, 'interface'), encoding='utf-8', errors='replace').read()
+    except OSError as e:
+        raise AnalysisBroken(f'cannot read interface headers: {e}')
+    names = re.findall(r'^\s*([A-Za-z_][A-Za-z_0-9]*)\s*,', cats, re.M)
+    classes = [n for n in names if re.search(r'\bstruct\s+' + n + r'\s*:', iface)]
+    lines = ['#include <ipr/impl>', '#include <ipr/io>', '#include <ipr/traversal>', 'namespace ipr {']
+    for T in ('Specifiers', 'Qualifiers'):
+        for op in ('|', '&', '^'):
+            lines.append(f'   template {T} operator{op}({T}, {T});')
+            lines.append(f'   template {T}& operator{op}=({T}&, {T});')
+        lines.append(f'   template bool implies({T}, {T});')
+    lines.append('   namespace util {')
+    for c in classes:
+        lines.append(f'      template const ipr::{c}* view<ipr::{c}>(const ipr::Node&);')
+    lines.append('   }')
+    lines.append('}')
+    for t in ('ipr::impl::ref_sequence<ipr::Expr>', 'ipr::impl::empty_sequence<ipr::Handler>',
+              'ipr::impl::singleton_ref<ipr::Decl>', 'ipr::Sequence<ipr::Expr>',
+              'ipr::impl::obj_sequence<ipr::impl::Enumerator>', 'ipr::impl::obj_list<ipr::impl::Token>',
+              'ipr::Optional<ipr::Expr>', 'ipr::util::ref<const ipr::Expr>'):
+        lines.append(f'template struct {t};')
+    return '\n'.join(lines) + '\n', classes
 
 
 def _scan_unit(unit, out, repo):
@@ -113,16 +147,27 @@ def _merge(per_unit):
     return merged
 
 
-def scan(repo=None, units=None, verbose=True):
+def scan(repo=None, units=None, verbose=True, with_probe=True):
     """Scan the given units (default: the library) and return merged raw facts."""
     repo = repo or REPO
     units = units or library_units(repo)
     for u in units:
         if not os.path.exists(u):
             raise AnalysisBroken(f'translation unit {u} listed by the build does not exist')
+    srcs = sorted(os.path.join(repo, 'src', f) for f in os.listdir(os.path.join(repo, 'src')) if f.endswith('.cxx'))
+    extra = [u for u in srcs if u not in units]
+    if extra:
+        raise AnalysisBroken(f'source file(s) {extra} under src/ are not part of the library target in CMakeLists.txt: '
+                             'the analysis would not cover them')
     tmp = tempfile.mkdtemp(prefix='iprscan-')
     try:
         procs = []
+        if with_probe:
+            src, _classes = probe_source(repo)
+            pu = os.path.join(tmp, 'probe.cxx')
+            with open(pu, 'w') as fh:
+                fh.write(src)
+            units = list(units) + [pu]
         for u in units:
             out = os.path.join(tmp, os.path.basename(u) + '.json')
             cmd = [SCANNER, f'--root={repo}', f'--out={out}', u, '--'] + flags(repo)
@@ -318,6 +363,16 @@ def strip_casts(e):
             'DerivedToBase', 'UncheckedDerivedToBase', 'NoOp', 'LValueToRValue', 'BaseToDerived'):
         e = e['e']
     return e
+
+
+def unwrap(e):
+    """strip_casts plus copy/move constructions of one argument (pass-by-value of a class object)."""
+    while True:
+        e = strip_casts(e)
+        if isinstance(e, dict) and e.get('k') == 'ctor' and e.get('copy') and len(e.get('args', [])) == 1:
+            e = e['args'][0]
+            continue
+        return e
 
 
 def stmts(body):
